@@ -9,6 +9,7 @@ structure MSpec where
   name  : Bytes
   level : Level
   codes : List Bytes
+  deriving DecidableEq
 
 def baseG : List MSpec := [
   ⟨b!"AV", .base, [b!"L", b!"A", b!"N"]⟩, ⟨b!"AC", .base, [b!"H", b!"M", b!"L"]⟩,
